@@ -40,6 +40,9 @@ enum Fault {
     ScopedDefinitionOnGraphNode,
     ConflictingEdgeAttribute,
     ConflictingNodeAttributeApart,
+    ElifNonBoolean,
+    TypeErrorInUnusedLet,
+    TypeErrorInUnreadScopedDefinition,
 }
 
 const FAULTS: &[Fault] = &[
@@ -60,6 +63,9 @@ const FAULTS: &[Fault] = &[
     Fault::ScopedDefinitionOnGraphNode,
     Fault::ConflictingEdgeAttribute,
     Fault::ConflictingNodeAttributeApart,
+    Fault::ElifNonBoolean,
+    Fault::TypeErrorInUnusedLet,
+    Fault::TypeErrorInUnreadScopedDefinition,
 ];
 
 impl Fault {
@@ -82,6 +88,9 @@ impl Fault {
             Fault::ScopedDefinitionOnGraphNode => "scoped_definition_on_graph_node",
             Fault::ConflictingEdgeAttribute => "conflicting_edge_attribute_with_other_edges_between",
             Fault::ConflictingNodeAttributeApart => "conflicting_node_attribute_with_other_nodes_between",
+            Fault::ElifNonBoolean => "elif_non_boolean",
+            Fault::TypeErrorInUnusedLet => "type_error_in_unused_let",
+            Fault::TypeErrorInUnreadScopedDefinition => "type_error_in_unread_scoped_definition",
         }
     }
     /// conflicts between two statements
@@ -116,6 +125,18 @@ fn fault_stmts(f: Fault, cap: Option<&str>) -> Option<Vec<GStmt>> {
         // eagerly evaluated positions: in lazy mode these fail while matches are collected
         Fault::ScanNonString => vec![stmt(StmtKind::Scan(GExpr::call("plus", vec![GExpr::Int(424242), GExpr::Int(1)]), vec![GArm { regex: "a".into(), stmts: vec![], loc: Loc::default() }]))],
         Fault::IfNonBoolean => vec![stmt(StmtKind::If(vec![GIfArm { conds: vec![GCond { kind: CondKind::Bool, expr: GExpr::call("plus", vec![GExpr::Int(424242), GExpr::Int(1)]), loc: Loc::default() }], stmts: vec![], loc: Loc::default() }]))],
+        // the failing clause sits in a later arm: the failing statement is still the `if`
+        Fault::ElifNonBoolean => vec![stmt(StmtKind::If(vec![
+            GIfArm { conds: vec![GCond { kind: CondKind::Bool, expr: GExpr::call("eq", vec![GExpr::Int(424242), GExpr::Int(1)]), loc: Loc::default() }], stmts: vec![], loc: Loc::default() },
+            GIfArm { conds: vec![GCond { kind: CondKind::Bool, expr: GExpr::True, loc: Loc::default() }, GCond { kind: CondKind::Bool, expr: GExpr::call("plus", vec![GExpr::Int(424242), GExpr::Int(1)]), loc: Loc::default() }], stmts: vec![], loc: Loc::default() },
+            GIfArm { conds: vec![], stmts: vec![], loc: Loc::default() },
+        ]))],
+        // values nobody reads: lazy mode forces them in its final sweep
+        Fault::TypeErrorInUnusedLet => vec![stmt(StmtKind::Node(GVar::u("zq_n"))), stmt(StmtKind::Let(GVar::u("zq_v"), GExpr::call("plus", vec![GExpr::Int(1), GExpr::str("two")])))],
+        Fault::TypeErrorInUnreadScopedDefinition => {
+            let c = cap?;
+            vec![stmt(StmtKind::Node(GVar::u("zq_n"))), stmt(StmtKind::Let(GVar::s(GExpr::cap(c), "zq_unread"), GExpr::call("plus", vec![GExpr::Int(1), GExpr::str("two")])))]
+        }
         Fault::ForNonList => vec![stmt(StmtKind::Let(GVar::u("zq_l"), GExpr::List(vec![GExpr::Int(1)]))), stmt(StmtKind::For(GUVar::new("zq_x"), GExpr::Set(vec![GExpr::var("zq_l")]), vec![]))],
         Fault::UndefinedScopedViaLet => {
             let c = cap?;
@@ -184,6 +205,8 @@ fn fault_positions(f: Fault) -> (usize, Option<usize>) {
         Fault::ScopedDefinitionOnGraphNode => (1, None),
         Fault::ConflictingEdgeAttribute => (7, Some(5)),
         Fault::ConflictingNodeAttributeApart => (4, Some(2)),
+        Fault::ElifNonBoolean => (0, None),
+        Fault::TypeErrorInUnusedLet | Fault::TypeErrorInUnreadScopedDefinition => (1, None),
     }
 }
 
